@@ -444,12 +444,14 @@ func c10NoWriteBeforeRefusal(p *Prog, c *Check) {
 // ---- refusing exits that cannot be taken ----
 //
 // A refusing return guarded by "K(...) failed" is infeasible when K cannot fail there:
-//   leaf: every failing return of K passes through the error of H(args built from K's parameters),
-//         the fact H(the same arguments) == nil dominates the call of K (possibly in a caller), and the
-//         state H reads is not written between that check and K's own evaluation of H: the fields H
-//         (transitively) loads are stored, inside the delivery scope, only in K after its call of H,
-//         and K has a single call site in the scope, outside any loop;
-//   step: every failing return of K is itself infeasible (its guards are looked for in K and K's callers).
+//
+//	leaf: every failing return of K passes through the error of H(args built from K's parameters),
+//	      the fact H(the same arguments) == nil dominates the call of K (possibly in a caller), and the
+//	      state H reads is not written between that check and K's own evaluation of H: the fields H
+//	      (transitively) loads are stored, inside the delivery scope, only in K after its call of H,
+//	      and K has a single call site in the scope, outside any loop;
+//	step: every failing return of K is itself infeasible (its guards are looked for in K and K's callers).
+//
 // This replaces a table of reviewed exits: the 'Error in addConfig' exit of deliverBatchConfig is the
 // one instance on the pinned tree (addConfig fails only through checkConfig, which succeeded before).
 type infeasible struct {
